@@ -93,8 +93,10 @@ def binary_case(draw):
     elif cls == "log":
         u = draw(st.sampled_from(LOGU))
         a = draw(operand(unit_text=u, allow_dec=False))
-        b = draw(operand(unit_text=u if draw(st.integers(0, 3)) else draw(st.sampled_from(LOGU)), allow_dec=False,
-                         array=isinstance(a["x"], list)))
+        # the right operand in the same unit, in the same unit under the other prefix (dBm + Bm), or in another level unit
+        other_prefix = ("B" + u[2:]) if u.startswith("dB") else ("dB" + u[1:]) if u.startswith("B") else {"Np": "dNp", "dNp": "Np"}[u]
+        ub = draw(st.sampled_from([u, u, other_prefix, other_prefix, draw(st.sampled_from(LOGU))]))
+        b = draw(operand(unit_text=ub, allow_dec=False, array=isinstance(a["x"], list)))
         alts = [u]
     else:
         dim = draw(st.sampled_from(G.DIMS))
